@@ -2,6 +2,7 @@ package harness
 
 import (
 	"bytes"
+	"crypto/tls"
 	"encoding/binary"
 	"fmt"
 	"net"
@@ -556,8 +557,9 @@ func init() {
 // which the simulator cannot host.
 func c16Real(w *W) {
 	kind := []string{"pull", "bus", "sub", "pair", "xrep", "xsurveyor", "star"}[w.Choose(simrt.SShape, 7)]
-	tran := []string{"tcp", "ws"}[w.Choose(simrt.SShape, 2)]
+	tran := []string{"tcp", "ws", "tls+tcp"}[w.Choose(simrt.SShape, 3)]
 	limit := []int{100, 1000, 5000}[w.Choose(simrt.SShape, 3)]
+	srvCfg, cliCfg := tlsConfigs()
 	w.SetShape("kind", kind)
 	w.SetShape("tran", tran)
 	w.SetShape("limit", limit)
@@ -568,17 +570,21 @@ func c16Real(w *W) {
 	if kind == "sub" {
 		mustSet(w, s, mangos.OptionSubscribe, "")
 	}
-	url := "tcp://127.0.0.1:0"
+	url := tran + "://127.0.0.1:0"
+	var lopts map[string]interface{}
 	if tran == "ws" {
 		url = "ws://127.0.0.1:0/sp"
 	}
-	l, err := s.NewListener(url, nil)
+	if tran == "tls+tcp" {
+		lopts = map[string]interface{}{mangos.OptionTLSConfig: srvCfg}
+	}
+	l, err := s.NewListener(url, lopts)
 	if err != nil || l.Listen() != nil {
 		w.Failf("HARNESS/listen", "%v", err)
 		return
 	}
 	addr := l.Address()
-	hostport := strings.TrimPrefix(strings.TrimPrefix(addr, "tcp://"), "ws://")
+	hostport := strings.TrimPrefix(strings.TrimPrefix(strings.TrimPrefix(addr, "tls+tcp://"), "tcp://"), "ws://")
 	hostport = strings.TrimSuffix(hostport, "/sp")
 	info := s.Info()
 	pairLike := kind == "pair"
@@ -589,8 +595,15 @@ func c16Real(w *W) {
 		alive func() bool // false once mangos closed the connection
 	}
 	connect := func() *peerT {
-		if tran == "tcp" {
-			c, err := net.Dial("tcp", hostport)
+		if tran == "tcp" || tran == "tls+tcp" {
+			var c net.Conn
+			var err error
+			if tran == "tls+tcp" {
+				d := &net.Dialer{Timeout: 5 * time.Second}
+				c, err = tls.DialWithDialer(d, "tcp", hostport, cliCfg)
+			} else {
+				c, err = net.Dial("tcp", hostport)
+			}
 			if err != nil {
 				return nil
 			}
@@ -693,6 +706,13 @@ func c16Real(w *W) {
 			w.Op("hostile: connects and stays silent")
 			w.Fault("hs-stall")
 			w.OnCleanup(func() { c.Close() })
+			time.Sleep(30 * time.Millisecond)
+			oc := w.Do("Listener.GetOption", func() (interface{}, error) { return l.GetOption(mangos.OptionMaxRecvSize) })
+			if !oc.Wait(3 * time.Second) {
+				w.Failf("C12/call-never-returns:Listener.GetOption", "%s over %s: a peer connected and stays silent; GetOption on the listener does not return", kind, tran)
+				return
+			}
+			w.Probe("silent-peer-does-not-block-listener")
 		case 2, 3: // message around the limit
 			if pairLike {
 				continue
@@ -732,6 +752,9 @@ func c16Real(w *W) {
 			}
 			p.close()
 		case 4: // tcp: absurd announcement; ws: HTTP without upgrade
+			if tran == "tls+tcp" {
+				continue
+			}
 			c, err := net.Dial("tcp", hostport)
 			if err != nil {
 				continue
